@@ -208,6 +208,38 @@ def c13(tier, seed):
                       s, extra, min_evaluations=2000, exhaustive=True)
 
 
+@prop("C16")
+def c16(tier, seed):
+    chk = Check("C16", tier, seed)
+    chk.assumptions = ASSUME_API
+    c, d, s = apiprops.run_api(chk, "C16", [(4, 4)], stall_s=60.0)
+    ev = sum(c.get(k, 0) for k in ("enc_groups", "enc_tails", "random_strings", "dec_groups", "dec_tails",
+                                   "validator_candidates", "printed_keys", "k_path_runs"))
+    ex = tier == "thorough"
+    extra = dict(counters=c, exhaustive_parts=("all 2^24 3-byte groups, all 64^4 symbol groups, all 1/2-byte tails, all padded tails"
+                                               if ex else "all 1/2-byte tails and padded tails; groups sampled 1/16 and 1/8"))
+    return chk.finish(ev, d.get("class", 0),
+                      "encoder: 3-byte groups (thorough: all 2^24), all 1- and 2-byte tails, random strings of every length 0..100 "
+                      "with canary-checked extent and NUL; decoder: 4-symbol groups (thorough: all 64^4), all padded tails, inverse of "
+                      "the encoder; validator: every single-byte substitution (24x256), insertions/deletions, every placement of 0-4 "
+                      "'=' in the last 6 positions, random placements, lengths 0..40, every 22nd symbol, vs MUST-ACCEPT (canonical "
+                      "16-byte encodings) / MUST-REJECT / DON'T-CARE (non-canonical pad bits) classes, accepted strings decoded into a "
+                      "canary buffer; printed keys round-trip; the real -k parser path under ASan; distinct = distinct candidates/groups",
+                      s, extra, min_evaluations=100000)
+
+
+@prop("C18")
+def c18(tier, seed):
+    variants = [(4, 4)] if tier == "quick" else [(1, 4), (4, 4)]
+    return _simple_api("C18", tier, seed, "files",
+                       "T = 2..16 x non-ECB modes x {random, all-chunks-equal} plaintexts of 2T+1 chunks x seeds; for every stream the IV "
+                       "it really started from is recovered from (key, P, C) with the reference block cipher; monitors: pairwise "
+                       "distinct stream IVs, distinct header slots, all slots and the used IV change when one seed bit changes, no "
+                       "keystream block used twice (CTR/OFB), equal plaintext chunks never give equal ciphertext chunks; every "
+                       "violating observation carries a cause signature; distinct = (T, mode, plaintext kind, seed index)",
+                       500, variants=variants, crash_is_violation=False)
+
+
 @prop("C15")
 def c15(tier, seed):
     return _simple_api("C15", tier, seed, "operations",
